@@ -606,8 +606,8 @@ class LaserPath:
         """
 
         fn = pathlib.Path(filename)
-        if fn.suffix not in ['.pickle', 'pkl']:
-            fn = pathlib.Path(fn.stem + '.pkl')
+        if not fn.suffix:
+            fn = fn.with_suffix('.pkl')
         with open(fn, 'wb') as p:
             if as_dict:
                 dill.dump(self.__dict__, p)
